@@ -4,6 +4,7 @@ package main
 
 import (
 	"fmt"
+	"sort"
 	"strings"
 
 	"github.com/Syuparn/pangaea/object"
@@ -218,6 +219,8 @@ func genC04(c *Ctx) {
 		run(m.name, a.name, a.sym, tbl, carg, c.Rng.Pick([]string{"5", "-", "2", "5+1+2", "1+2", "3+0+0"}), "random")
 	}
 
+	c04DigestProbes(c)
+	c04KeptReceivers(c)
 	// other receiver kinds: the three forms must agree with each other and with the array of the same elements
 	type rk struct{ name, recv, arr string }
 	kinds := []rk{
@@ -274,6 +277,168 @@ func genC04(c *Ctx) {
 					}
 					c.Em.Emit(rec)
 				}
+			}
+		}
+	}
+}
+
+// c04KeptReceivers (no model involved): a receiver kept in a variable and used as the receiver of several chains in one
+// program yields e1..en for every one of them (a chain over an iterator works on a copy)
+func c04KeptReceivers(c *Ctx) {
+	setups := []string{
+		"cnt := 0\nit := <{cnt := cnt + 1; yield cnt if cnt < 4}>",
+		"it := <{|i| yield i if i < 4; recur(i + 1)}>.new(1)",
+		"it := <{yield \\ if \\ < 4; recur(\\ + 1)}>.new(1)",
+		// (built-in iterators obtained with `_iter` from arrays / ranges are consumed by the first chain: what the
+		// receiver's iterator yields afterwards is nothing, which is consistent with the property - not used here)
+		"it := <{|i| yield i if i < 4; recur(i + 1)}>.new(1)._iter",
+		"it := [1, 2, 3]",
+		"it := (1:4)",
+	}
+	chains := []string{"it@{|x| x * 10}", "it@^f", "it=@*(10)", "it~@{|x| x * 10}", "it&@^f", "it$(0){|acc, x| acc + x}", "it$(0)+", "it@([0]){|x| x * 10}", "it@*(10)", "it.A"}
+	wants := []string{"[10, 20, 30]", "[10, 20, 30]", "[10, 20, 30]", "[10, 20, 30]", "[10, 20, 30]", "6", "6", "[0, 10, 20, 30]", "[10, 20, 30]", "[1, 2, 3]"}
+	for si, setup := range setups {
+		for k := 0; k < 4; k++ {
+			if !c.Mine() {
+				continue
+			}
+			idx := []int{}
+			for j := 0; j < 4; j++ {
+				idx = append(idx, c.Rng.Intn(len(chains)))
+			}
+			parts, want := []string{}, []string{}
+			for _, j := range idx {
+				parts = append(parts, chains[j])
+				want = append(want, wants[j])
+			}
+			src := "f := {|x| x * 10}\n" + setup + "\n[" + strings.Join(parts, ", ") + "]"
+			o := c.It.Run(src, "")
+			rec := Rec{Src: src, Impl: o.Canon(), NT: true, Tags: []string{"kept-receiver", fmt.Sprintf("kept-%d", si)}}
+			if o.Canon() != "val ["+strings.Join(want, ", ")+"]" {
+				rec.Oracle = fmt.Sprintf("chains over a receiver kept in a variable give %s, every chain should see 1, 2, 3: [%s]", o.Canon(), strings.Join(want, ", "))
+			}
+			c.Em.Emit(rec)
+		}
+	}
+}
+
+// c04DigestProbes (no model involved): a list chain with a container as chain argument returns the container's own
+// pairs / elements followed by the collected results, in that container type, each key once (the first wins). The
+// expectation is built here from the container and the receiver evaluated separately, pair by pair, with key identity
+// taken from the canonical rendering (the keys used render injectively: strs, ints, arrays of ints).
+func c04DigestProbes(c *Ctx) {
+	type ctn struct{ kind, src string }
+	ctns := []ctn{{"map", "%{}"}, {"map", "%{\"n\": 0}"}, {"map", "%{\"n\": 0, [1, 2]: \"kept\"}"}, {"map", "%{1: 'a, [3, 4]: 'b, [5]: 'c}"},
+		{"obj", "{}"}, {"obj", "{a: 1}"}, {"obj", "{b: 2, a: 1}"}, {"arr", "[]"}, {"arr", "[7, [1, 2]]"}}
+	recvs := []struct {
+		src     string
+		strKeys bool
+	}{
+		{"%{[1, 2]: 3, [3, 4]: 7}", false}, {"[[\"n\", 1], [[1, 2], 2], [\"a\", 3], [[1, 2], 4]]", false}, {"[[1, 'x], [[5], 'y], [2, 'z], [1, 'w]]", false},
+		{"[[\"a\", 10], [\"c\", 30], [\"a\", 20]]", true}, {"{c: 3, a: 9}", true}, {"[]", true}, {"%{\"a\": 5, [1, 2]: 6, 1: 7}", false},
+	}
+	forms := []string{"{|x| x}", "^f", "{|x| [x[0], x[1]]}"}
+	adds := []string{"@", "=@", "~@", "&@"}
+	for ci, ct := range ctns {
+		for ri, rv := range recvs {
+			if ct.kind == "obj" && !rv.strKeys {
+				continue
+			}
+			for fi, form := range forms {
+				add := adds[(ci+ri+fi)%len(adds)]
+				if !c.Mine() {
+					continue
+				}
+				src := fmt.Sprintf("f := {|x| x}\ncontainer := %s\nrecv := %s\n[container, recv.A, recv%s(container)%s]", ct.src, rv.src, add, form)
+				if strings.HasPrefix(rv.src, "%") || strings.HasPrefix(rv.src, "{") {
+					src = strings.Replace(src, "recv.A", "recv.items", 1)
+				}
+				o := c.It.Run(src, "")
+				rec := Rec{Src: src, Impl: o.Kind, NT: true, Tags: []string{"digest-probe", "digest-" + ct.kind}}
+				arr, ok := o.Obj.(*object.PanArr)
+				if o.Kind != "val" || !ok || len(arr.Elems) != 3 {
+					rec.Oracle = "digest probe did not evaluate: " + o.Kind + " " + o.ErrMsg
+					c.Em.Emit(rec)
+					continue
+				}
+				pairs, ok := arr.Elems[1].(*object.PanArr)
+				if !ok {
+					rec.Skip = "receiver-not-pairs"
+					c.Em.Emit(rec)
+					continue
+				}
+				want := ""
+				switch cv := arr.Elems[0].(type) {
+				case *object.PanArr:
+					parts := []string{}
+					for _, e := range cv.Elems {
+						parts = append(parts, c09Canon(e))
+					}
+					for _, e := range pairs.Elems {
+						parts = append(parts, c09Canon(e))
+					}
+					want = "[" + strings.Join(parts, ";") + "]"
+				case *object.PanMap:
+					seen := map[string]bool{}
+					scalars, others := []string{}, []string{}
+					addPair := func(k, v object.PanObject) {
+						ck := c09Canon(k)
+						if seen[ck] {
+							return
+						}
+						seen[ck] = true
+						switch k.(type) {
+						case *object.PanArr, *object.PanObj, *object.PanMap:
+							others = append(others, ck+"="+c09Canon(v))
+						default:
+							scalars = append(scalars, ck+"="+c09Canon(v))
+						}
+					}
+					for _, hk := range *cv.HashKeys {
+						p := (*cv.Pairs)[hk]
+						addPair(p.Key, p.Value)
+					}
+					for _, p := range *cv.NonHashablePairs {
+						addPair(p.Key, p.Value)
+					}
+					for _, e := range pairs.Elems {
+						if kv, ok := e.(*object.PanArr); ok && len(kv.Elems) == 2 {
+							addPair(kv.Elems[0], kv.Elems[1])
+						}
+					}
+					want = "%{" + strings.Join(append(scalars, others...), ";") + "}"
+				case *object.PanObj:
+					seen := map[string]string{}
+					names := []string{}
+					for _, h := range *cv.Keys {
+						p := (*cv.Pairs)[h]
+						n := p.Key.(*object.PanStr).Value
+						seen[n] = c09Canon(p.Value)
+						names = append(names, n)
+					}
+					for _, e := range pairs.Elems {
+						if kv, ok := e.(*object.PanArr); ok && len(kv.Elems) == 2 {
+							if ks, ok := kv.Elems[0].(*object.PanStr); ok {
+								if _, dup := seen[ks.Value]; !dup {
+									seen[ks.Value] = c09Canon(kv.Elems[1])
+									names = append(names, ks.Value)
+								}
+							}
+						}
+					}
+					sort.Strings(names)
+					parts := []string{}
+					for _, n := range names {
+						parts = append(parts, n+"="+seen[n])
+					}
+					want = "{" + strings.Join(parts, ";") + "}"
+				}
+				got := c09Canon(arr.Elems[2])
+				rec.Impl = got
+				if got != want {
+					rec.Oracle = fmt.Sprintf("the list chain with the container %s as chain argument gives %s; the container's pairs followed by the collected results (first key wins) are %s", ct.src, got, want)
+				}
+				c.Em.Emit(rec)
 			}
 		}
 	}
